@@ -273,6 +273,18 @@ def run(rep, pdb, tier):
     # ---- snap to the real axis: the component that is dropped is the one that was tested small
     snaps = [e for e in effs if e.kind == "assign" and e.loops and e.value[0] == "call" and str(e.value[1]).endswith("Complex<T>::new") and e.value[2] == ("field", e.target, "real") and e.value[3] == num(0)]
     rule = "a computed root is snapped to the real axis (imaginary part dropped) only under |imag| <= c*|real| with the dropped component on the small side"
+    class _Snap:
+        pass
+    if len(snaps) != 1:
+        # the snapped value produced by an expression (`let x = if |x.imag| <= .. { Complex::new(x.real, 0.0) } else { x }`, an inlined helper)
+        snaps = []
+        for n_ in walk(ps["body"]):
+            if n_.get("k") == "Call" and any(a.get("k") in ("For", "While", "Loop") for a in ancestors(n_)) and not in_macro(n_):
+                t_ = ctx.term(n_)
+                if t_[0] == "call" and str(t_[1]).endswith("Complex<T>::new") and len(t_) == 4 and t_[3] == num(0) and t_[2][0] == "field" and t_[2][2] == "real":
+                    sn = _Snap()
+                    sn.node, sn.target = n_, t_[2][1]
+                    snaps.append(sn)
     if len(snaps) != 1:
         rep.missing("snap", rule, "snap statement not found (%d)" % len(snaps))
     else:
